@@ -352,10 +352,11 @@ func (fs *FS) renameFile(oldFile *file, oldname, newname string) error {
 		if err == nil {
 			err = fs.setFileTxn(txn, oldname, nil, nil)
 		}
-		if err != nil {
+		switch {
+		case err == nil:
+			err = commitTxn(txn)
+		case txn != nil:
 			_ = txn.Abort()
-		} else {
-			_, err = txn.Commit(context.Background())
 		}
 		return err
 	}
